@@ -96,6 +96,13 @@ impl<'de> Deserialize<'de> for Nests {
             "ok" => format!("{:?}", serde_saphyr::from_str::<BTreeMap<String, i32>>("p: 1\nq: 2\n")),
             "anchors" => format!("{:?}", serde_saphyr::from_str::<Shared>("a: &x inner\nb: *x\n").map(|s| (Rc::ptr_eq(&s.a.0, &s.b.0), s.a.0.to_string()))),
             "fails" => format!("{:?}", serde_saphyr::from_str::<Tagged>("5\n").map_err(|e| fmt_err(&e))),
+            "same-id" => format!("{:?}", serde_saphyr::from_str::<RcAnchor<i32>>("&y 7\n").map(|r| *r.0).map_err(|e| fmt_err(&e))),
+            "stream" => {
+                let mut rd = std::io::Cursor::new(b"&x 7\n---\n8\n".to_vec());
+                let items: Vec<String> = serde_saphyr::read::<_, RcAnchor<i32>>(&mut rd).map(|r| format!("{:?}", r.map(|v| *v.0).map_err(|e| fmt_err(&e)))).collect();
+                format!("{items:?}")
+            }
+            "thread-ok" => std::thread::spawn(|| format!("{:?}", serde_saphyr::from_str::<BTreeMap<String, i32>>("p: 1\nq: 2\n"))).join().unwrap(),
             _ => format!("{:?}", serde_saphyr::from_str::<TwoFields>("a: 1\n").map_err(|e| fmt_err(&e))),
         };
         Ok(Nests(seen))
@@ -108,6 +115,18 @@ struct Outer {
     b: RcAnchor<String>,
     #[serde(default)]
     tail: Option<i32>,
+}
+/// the nested parse runs while an anchored wrapper of the outer document is open
+#[derive(Deserialize, Debug)]
+struct InsideAnchor {
+    w: RcAnchor<Nests>,
+    again: RcAnchor<Nests>,
+}
+#[derive(Deserialize, Debug)]
+#[allow(dead_code)]
+struct NeedsField {
+    n: Nests,
+    needed: i32,
 }
 #[derive(Debug)]
 struct Panics;
@@ -141,6 +160,7 @@ fn opts_budget() -> serde_saphyr::Options {
 }
 
 const CALLS: &[&str] = &[
+    "nested_same_id_inside_anchor", "nested_stream", "nested_then_missing", "thread_nested_then_missing",
     "ok_plain", "ok_anchors", "fail_syntax_in_anchor", "fail_type_in_anchor_wrapper", "budget", "nested_ok", "nested_anchors", "nested_fails", "nested_missing",
     "iterator_abandoned", "panicking_visitor", "serialize_shared", "missing_field", "unknown_alias_wrapper",
 ];
@@ -156,6 +176,10 @@ fn call(name: &str) -> String {
         "nested_anchors" => format!("{:?}", serde_saphyr::from_str::<Outer>("a: &x v\nn: anchors\nb: *x\n").map(|o| (Rc::ptr_eq(&o.a.0, &o.b.0), o.n.0, o.tail)).map_err(|e| fmt_err(&e))),
         "nested_fails" => format!("{:?}", serde_saphyr::from_str::<Outer>("a: &x v\nn: fails\nb: *x\n").map(|o| (Rc::ptr_eq(&o.a.0, &o.b.0), o.n.0, o.tail)).map_err(|e| fmt_err(&e))),
         "nested_missing" => format!("{:?}", serde_saphyr::from_str::<Outer>("a: &x v\nn: missing\nb: *x\n").map(|o| (Rc::ptr_eq(&o.a.0, &o.b.0), o.n.0, o.tail)).map_err(|e| fmt_err(&e))),
+        "nested_same_id_inside_anchor" => format!("{:?}", serde_saphyr::from_str::<InsideAnchor>("w: &x same-id\nagain: *x\n").map(|o| (Rc::ptr_eq(&o.w.0, &o.again.0), o.w.0.0.clone())).map_err(|e| fmt_err(&e))),
+        "nested_stream" => format!("{:?}", serde_saphyr::from_str::<Outer>("a: &x v\nn: stream\nb: *x\n").map(|o| (Rc::ptr_eq(&o.a.0, &o.b.0), o.n.0, o.tail)).map_err(|e| fmt_err(&e))),
+        "nested_then_missing" => format!("{:?}", serde_saphyr::from_str::<NeedsField>("n: ok\n").map_err(|e| fmt_err(&e))),
+        "thread_nested_then_missing" => format!("{:?}", serde_saphyr::from_str::<NeedsField>("n: thread-ok\n").map_err(|e| fmt_err(&e))),
         "iterator_abandoned" => {
             let mut rd = std::io::Cursor::new(b"a: &x v\nb: *x\n---\na: &x w\nb: *x\n---\na: 1\n".to_vec());
             let mut it = serde_saphyr::read::<_, Shared>(&mut rd);
@@ -273,6 +297,21 @@ pub fn run(ctx: &mut Ctx) {
     let solo_anchors = on_fresh_thread(|| format!("{:?}", serde_saphyr::from_str::<Shared>("a: &x inner\nb: *x\n").map(|s| (Rc::ptr_eq(&s.a.0, &s.b.0), s.a.0.to_string()))));
     let solo_fails = on_fresh_thread(|| format!("{:?}", serde_saphyr::from_str::<Tagged>("5\n").map_err(|e| fmt_err(&e))));
     let solo_missing = on_fresh_thread(|| format!("{:?}", serde_saphyr::from_str::<TwoFields>("a: 1\n").map_err(|e| fmt_err(&e))));
+    {
+        ctx.direct_evaluations += 3;
+        let r = &fresh["nested_same_id_inside_anchor"];
+        if r != "Ok((true, \"Ok(7)\"))" {
+            ctx.fail("nested-call-disturbed", format!("a parse nested inside an open anchored wrapper of the outer document (same wrapper kind, same anchor id): {r:?}; expected the nested Ok(7) and the outer alias shared"), json!({"kind": "sequence", "sequence": ["nested_same_id_inside_anchor"]}));
+        }
+        let r = &fresh["nested_stream"];
+        if !(r.starts_with("Ok((true") && r.contains("Ok(7)") && r.contains("Ok(8)")) {
+            ctx.fail("nested-call-disturbed", format!("the iterator entry point nested inside a Deserialize impl: {r:?}; expected [Ok(7), Ok(8)] and the outer alias still shared"), json!({"kind": "sequence", "sequence": ["nested_stream"]}));
+        }
+        // the outer document's own error must not depend on whether the nested parse ran on this thread
+        if fresh["nested_then_missing"] != fresh["thread_nested_then_missing"] {
+            ctx.fail("nested-call-changes-outer-error", format!("outer error after a nested parse on this thread: {:?}; with the nested parse on another thread: {:?}", fresh["nested_then_missing"], fresh["thread_nested_then_missing"]), json!({"kind": "sequence", "sequence": ["nested_then_missing"]}));
+        }
+    }
     for (name, solo) in [("nested_ok", &solo_ok), ("nested_anchors", &solo_anchors), ("nested_fails", &solo_fails), ("nested_missing", &solo_missing)] {
         ctx.direct_evaluations += 1;
         let r = &fresh[name];
